@@ -68,7 +68,7 @@ Log(c) ==
   LET r == req[c]
       ok == V!Allowed(r.rules, V!ActionOf(r.op), r.name)
       e == V!Entry(r.who, V!ActionOf(r.op), r.name, r.ver, ok)
-  IN  /\ pc[c] = "begun" /\ r.op \in GatedOps /\ ~PreRefused(r)
+  IN  /\ pc[c] = "begun" /\ r.op \in GatedOps        \* (an empty name may be refused before or after the permission check)
       /\ alog' = Append(alog, e)
       /\ IF ok
          THEN /\ pc' = [pc EXCEPT ![c] = "logged"]
